@@ -120,7 +120,7 @@ def opts : Sexp → Option Opts
 def findingIds : List String :=
   ["C17-deprecation-reason-quote", "C17-description-single-line-escapes", "C17-description-block-lossy",
    "C17-tag-url-escapes", "C17-interface-directives-before-implements", "C17-dynamic-interface-implements-dropped",
-   "C17-dynamic-input-field-attrs", "C17-extend-with-description"]
+   "C17-dynamic-input-field-attrs", "C17-extend-with-description", "C17-compose-url-escape"]
 
 def parserFinding : String := "C17-parser-directive-always-repeatable"
 
@@ -132,17 +132,42 @@ def defectsOf (ids : List String) : Defects :=
     interfaceDirectivesFirst := ids.contains "C17-interface-directives-before-implements",
     dynInterfaceImplementsDropped := ids.contains "C17-dynamic-interface-implements-dropped",
     dynInputFieldAttrsFromObject := ids.contains "C17-dynamic-input-field-attrs",
-    extendKeepsDescription := ids.contains "C17-extend-with-description" }
+    extendKeepsDescription := ids.contains "C17-extend-with-description",
+    composeUrlRaw := ids.contains "C17-compose-url-escape" }
+
+/-- all the ways to put `x` into `l` -/
+def insertions {α : Type} (x : α) : List α → List (List α)
+  | [] => [[x]]
+  | y :: r => (x :: y :: r) :: (insertions x r).map (y :: ·)
+
+def perms {α : Type} : List α → List (List α)
+  | [] => [[]]
+  | x :: r => (perms r).flatMap (insertions x)
+
+/-- the orders in which the exporter may write the compose groups (its `HashMap` decides): pairs
+    (the model's groups, the specification's groups) under the same permutation; only one when no
+    compose block is written -/
+def groupOrders (S : Schema) (o : Opts) : List (List (Text × List Text) × List (Text × List Text)) :=
+  let gm := composeGroups (allDirectives S)
+  let gs := linkGroups (allDirectives S)
+  if o.federation && o.compose && gm.length == gs.length && gm.length ≤ 5 then
+    (perms (gm.zip gs)).map List.unzip
+  else [(gm, gs)]
 
 /-- verdict for one option set: 0 OK, 1 TIE, 2 KNOWN id, 3 VIOL -/
 def judgeOne (known : List String) (k : Kind) (S : Schema) (o : Opts) (implSdl : Text) (crate : Sexp) : Nat × String × String × String :=
   let mine := findingIds.filter known.contains
-  let modelK := run (defectsOf mine) k S o
+  -- the order of the compose groups: the one under which the model's text is the real text
+  let orders := groupOrders S o
+  let (gm, gs) := ((orders.find? (fun g => implSdl = runG (defectsOf mine) k S o g.1)).orElse
+    (fun _ => orders.find? (fun g => implSdl = runG Defects.none k S o g.1))).getD
+      (composeGroups (allDirectives S), linkGroups (allDirectives S))
+  let modelK := runG (defectsOf mine) k S o gm
   let parsed := parseSchema implSdl
   let present := match parsed with
     | some doc => presentBuiltins doc
     | none => []
-  let expected := describe o S (allDirectives S) (composeGroups (allDirectives S)) present
+  let expected := describe o S (allDirectives S) gs present
   let want := render (cDoc expected)
   let got := render (cResult parsed)
   let propOk := got = want
@@ -157,19 +182,19 @@ def judgeOne (known : List String) (k : Kind) (S : Schema) (o : Opts) (implSdl :
     else if !crateOk then
       (if implSdl = modelK then (2, parserFinding, wantRep, want) else (1, "", String.ofList modelK, want))
     else if implSdl = modelK then (0, "", "", "")
-    else if implSdl = run Defects.none k S o then (0, "", "", "")
+    else if implSdl = runG Defects.none k S o gm then (0, "", "", "")
     else (1, "", String.ofList modelK, want)
   else if implSdl = modelK then
     -- attribute to the first listed finding whose removal changes the text
-    match mine.find? (fun id => run (defectsOf (mine.filter (· ≠ id))) k S o ≠ modelK) with
+    match mine.find? (fun id => runG (defectsOf (mine.filter (· ≠ id))) k S o gm ≠ modelK) with
     | some id => (2, id, String.ofList modelK, want)
     | none =>
       -- several listed defects act together (removing any single one leaves the text unchanged,
       -- e.g. `\"` in a single-line description): attribute to the first listed one, provided the
       -- fully repaired exporter's text does satisfy the property on this case
-      let fixedSdl := run Defects.none k S o
+      let fixedSdl := runG Defects.none k S o gm
       let fixedDoc := parseSchema fixedSdl
-      let fixedWant := render (cDoc (describe o S (allDirectives S) (composeGroups (allDirectives S))
+      let fixedWant := render (cDoc (describe o S (allDirectives S) gs
         (match fixedDoc with | some d => presentBuiltins d | none => [])))
       match mine with
       | id :: _ =>
@@ -181,6 +206,7 @@ def judgeOne (known : List String) (k : Kind) (S : Schema) (o : Opts) (implSdl :
 def judge (known : List String) (case impl : String) : JudgeOut :=
   match parse case, parse impl with
   | some (.list [.atom "sdl", .list (.atom "optsets" :: os), sch]), some (.list (.atom "outs" :: outs)) =>
+    -- `dyn`: built with async_graphql::dynamic; `static`, `static2`, `static3`, `static4`: derive-built
     let k : Kind := match sch with
       | .list (.atom "dyn" :: _) => .dynamic
       | _ => .derived
